@@ -3,7 +3,7 @@ from .. import prio
 from ..core import Suite
 
 SUITES = [Suite("prio1-addremove", prio.prio1_generate(0.0, 0.0, ["addremove", "addremove", "unbuffered"]), prio.prio1_project("C17"),
-                prio.monitor_prio1("C17"), rule=prio.PRIO1_RULE, version="v1", impl_ints=False, batch_timeout=300)]
+                prio.monitor_prio1("C17"), rule=prio.PRIO1_RULE, version="v1", impl_ints=False, batch_timeout=300, shrink=prio.shrink_prio1)]
 ASSUMPTIONS = [
     "model: Prio1.sched_step with channel identities; AddInput/RemoveInput are commands taken by the loop's select (the API call returns at that moment)",
     "one channel is never registered under two priorities at once; AddInput/RemoveInput are not called after termination (they panic: documented misuse)",
